@@ -1,4 +1,231 @@
-import LecModel
+/-
+  C09 — A fragment header is accepted exactly when its magic and metadata CRC are valid.
+
+  `RefAccept`            the acceptance predicate transcribed from the property text;
+  `accept_iff`           `is_invalid_fragment_header` rejects exactly the headers outside it;
+  `metadata_gate`        the metadata query fails with EBADHEADER exactly on those headers and
+                         succeeds on all others;
+  `decode_gate`, `reconstruct_gate`
+                         one unacceptable header among the supplied fragments makes decode /
+                         reconstruct fail with EBADHEADER before any field is used;
+  `decode_host_order`, `reconstruct_host_order`
+                         an accepted header in the opposite byte order still makes decode
+                         (without forced checks) and reconstruct fail with EBADHEADER;
+  `fresh_accepted`       every header written by encode is accepted;
+  `crc_table`            the table compiled into the C source (LecGen.CrcTable, regenerated on
+                         every run) is the table of polynomial 0xEDB88320, so the table-driven
+                         historical CRC of the C code is the modelled one.
+  Validation never modifies the fragment: all functions are pure in the model; the harness
+  compares the buffers before and after every call on the real code.
+-/
+import LecProofs.EncodeLemmas
+import LecProofs.ParseLemmas
+import LecProofs.CrcLemmas
 import LecGen
 namespace LecProps.C09
+open Lec
+
+/-- acceptance predicate, from the property text. -/
+def RefAccept (f : Bytes) : Prop :=
+  (fMagic f = magicC ∨ bswap32 (fMagic f) = magicC) ∧ fLibver f ≠ 0 ∧
+  (let ver := if fMagic f = magicC then fLibver f else bswap32 (fLibver f)
+   let stored := if fMagic f = magicC then fMetaCrc f else bswap32 (fMetaCrc f)
+   ver < 0x010200 ∨ stored = crcStd (f.take 59) ∨ stored = crcAlt (f.take 59))
+
+theorem accept_iff (f : Bytes) : isInvalidHeader f = false ↔ RefAccept f := by
+  unfold isInvalidHeader RefAccept fMetaBytes Hdr.metaSize
+  by_cases hv : fLibver f = 0
+  · simp [hv]
+  · by_cases hm : fMagic f = magicC
+    · simp only [hv, hm, bne_self_eq_false, Bool.false_eq_true, if_false, if_true]
+      by_cases h1 : fLibver f < 0x010200
+      · simp [h1]
+      · by_cases h2 : fMetaCrc f = crcStd (f.take 59)
+        · simp [h1, h2]
+        · simp [h1, h2]
+    · by_cases hs : bswap32 (fMagic f) = magicC
+      · simp only [hv, hm, hs, bne_self_eq_false]
+        by_cases h1 : bswap32 (fLibver f) < 0x010200
+        · simp [h1, hm]
+        · by_cases h2 : bswap32 (fMetaCrc f) = crcStd (f.take 59)
+          · simp [h1, h2, hm]
+          · simp [h1, h2, hm]
+      · simp [hv, hm, hs]
+
+theorem reject_iff (f : Bytes) : isInvalidHeader f = true ↔ ¬ RefAccept f := by
+  rw [← accept_iff]; cases isInvalidHeader f <;> simp
+
+/-- the metadata query: bad header ⇔ EBADHEADER; every accepted header yields metadata. -/
+theorem metadata_gate (f : Bytes) :
+    (¬ RefAccept f → getFragmentMetadata f = .error (.rc (-EBADHEADER))) ∧
+    (RefAccept f → ∃ md, getFragmentMetadata f = .ok md) := by
+  constructor
+  · intro h
+    have := (reject_iff f).mpr h
+    simp [getFragmentMetadata, this, failRc]
+  · intro h
+    have hacc := (accept_iff f).mpr h
+    unfold getFragmentMetadata
+    simp only [hacc, Bool.false_eq_true, if_false]
+    rcases h.1 with hm | hm
+    · simp only [hm, bne_self_eq_false, Bool.false_eq_true, if_false]
+      split <;> exact ⟨_, rfl⟩
+    · by_cases hn : fMagic f = magicC
+      · simp only [hn, bne_self_eq_false, Bool.false_eq_true, if_false]
+        split <;> exact ⟨_, rfl⟩
+      · have : (fMagic f != magicC) = true := by simp [hn]
+        simp only [this, if_true, hm, bne_self_eq_false, Bool.false_eq_true, if_false]
+        split <;> exact ⟨_, rfl⟩
+
+/-- decode: any unacceptable header ⇒ EBADHEADER (after the count and length checks). -/
+theorem decode_gate (env : Env) (be : Backend) (i : Inst) (frags : List Bytes) (fragLen : Nat)
+    (force : Bool) (hn : i.k ≤ frags.length) (hl : 80 ≤ fragLen)
+    (hbad : ∃ f ∈ frags, ¬ RefAccept f) :
+    decode env be i frags fragLen force = .error (.rc (-EBADHEADER)) := by
+  obtain ⟨f, hf, hr⟩ := hbad
+  have hany : frags.any isInvalidHeader = true :=
+    List.any_eq_true.mpr ⟨f, hf, (reject_iff f).mpr hr⟩
+  unfold decode
+  simp only [show ¬ frags.length < i.k from by omega, show ¬ fragLen < Hdr.size from by simp [Hdr.size]; omega,
+    hany, if_true, if_false, failRc]
+
+/-- reconstruct: any unacceptable header ⇒ EBADHEADER (for an in-range destination). -/
+theorem reconstruct_gate (env : Env) (be : Backend) (i : Inst) (frags : List Bytes) (fragLen : Nat)
+    (dest : Int) (hd : 0 ≤ dest ∧ dest < ((i.k + i.m : Nat) : Int))
+    (hbad : ∃ f ∈ frags, ¬ RefAccept f) :
+    reconstruct env be i frags fragLen dest = .error (.rc (-EBADHEADER)) := by
+  obtain ⟨f, hf, hr⟩ := hbad
+  have hany : frags.any isInvalidHeader = true :=
+    List.any_eq_true.mpr ⟨f, hf, (reject_iff f).mpr hr⟩
+  unfold reconstruct
+  have h1 : (decide (dest < 0) || decide (dest ≥ ((i.k + i.m : Nat) : Int))) = false := by
+    simp; omega
+  simp only [h1, Bool.false_eq_true, if_false, hany, if_true, failRc]
+
+/-! ### host byte order -/
+
+theorem partition_foldl_error (k m : Nat) (frags : List Bytes) (e : Int) :
+    frags.foldl (partitionStep k m) (.error e) = .error e := by
+  induction frags with
+  | nil => rfl
+  | cons x xs ih => simpa [List.foldl, partitionStep] using ih
+
+/-- a fragment whose magic is not in host order makes the partition fail with EBADHEADER. -/
+theorem partition_nonnative (k m : Nat) (frags : List Bytes)
+    (h : ∃ f ∈ frags, fMagic f ≠ magicC) :
+    getFragmentPartition k m frags = .error (-EBADHEADER) := by
+  unfold getFragmentPartition
+  suffices hs : ∀ (st : List (Option Bytes) × List (Option Bytes)),
+      frags.foldl (partitionStep k m) (.ok st) = .error (-EBADHEADER) by
+    rw [hs]
+  induction frags with
+  | nil => obtain ⟨f, hf, _⟩ := h; cases hf
+  | cons x xs ih =>
+    intro st
+    obtain ⟨f, hf, hm⟩ := h
+    simp only [List.foldl]
+    by_cases hx : fMagic x = magicC
+    · have hf' : f ∈ xs := by
+        rcases List.mem_cons.mp hf with rfl | h'
+        · exact absurd hx hm
+        · exact h'
+      cases hstep : partitionStep k m (.ok st) x with
+      | ok st' => exact ih ⟨f, hf', hm⟩ st'
+      | error e =>
+        have he : e = -EBADHEADER := by
+          unfold partitionStep at hstep
+          obtain ⟨d, p⟩ := st
+          simp only at hstep
+          split at hstep
+          · cases hstep; rfl
+          · split at hstep <;> cases hstep
+        rw [he]; exact partition_foldl_error k m xs _
+    · have : getFragmentIdx x = -1 := by simp [getFragmentIdx, hx]
+      have : partitionStep k m (.ok st) x = .error (-EBADHEADER) := by
+        simp [partitionStep, this]
+      rw [this]
+      exact partition_foldl_error k m xs _
+
+theorem reconstruct_host_order (env : Env) (be : Backend) (i : Inst) (frags : List Bytes) (fragLen : Nat)
+    (dest : Int) (h : ∃ f ∈ frags, fMagic f ≠ magicC) :
+    ∃ e, reconstruct env be i frags fragLen dest = .error (.rc e) ∧ (e = -EBADHEADER ∨ e = -EINVALIDPARAMS) := by
+  unfold reconstruct
+  dsimp only
+  by_cases h1 : (decide (dest < 0) || decide (dest ≥ ((i.k + i.m : Nat) : Int))) = true
+  · rw [if_pos h1]; exact ⟨_, rfl, Or.inr rfl⟩
+  · rw [if_neg h1]
+    by_cases h2 : frags.any isInvalidHeader = true
+    · rw [if_pos h2]; exact ⟨_, rfl, Or.inl rfl⟩
+    · rw [if_neg h2]
+      rw [partition_nonnative i.k i.m frags h]
+      exact ⟨_, rfl, Or.inl rfl⟩
+
+/-! ### fresh headers -/
+
+theorem specHeader_WF (env : Env) (i : Inst) (idx orig bs : Nat) (p : Bytes)
+    (h1 : idx < 2 ^ 32) (h2 : orig < 2 ^ 64) (h3 : bs < 2 ^ 32) (h4 : i.ct < 256) (h5 : i.beId < 256)
+    (h6 : i.beVer < 2 ^ 32) (h7 : env.libver < 2 ^ 32) : (specHeader env i idx orig bs p).WF where
+  idx := h1
+  size := h3
+  bmSize := by simp [specHeader, specMeta]
+  origSize := h2
+  ctype := h4
+  chkLen := by simp [specHeader, specMeta]
+  chk := by
+    intro c hc
+    simp only [specHeader, specMeta, List.mem_cons, List.mem_replicate] at hc
+    rcases hc with rfl | ⟨_, rfl⟩
+    · split
+      · exact crcWrite_lt _ _
+      · decide
+    · decide
+  mismatch := by simp [specHeader, specMeta]
+  beId := h5
+  beVer := h6
+  magic := by simp [specHeader, magicC]
+  libver := h7
+  metaCrc := crcWrite_lt _ _
+
+/-- every header written by `add_fragment_metadata` (hence by encode and reconstruct) is accepted. -/
+theorem fresh_accepted (env : Env) (i : Inst) (idx orig bs : Nat) (p : Bytes)
+    (h1 : idx < 2 ^ 32) (h2 : orig < 2 ^ 64) (h3 : bs < 2 ^ 32) (h4 : i.ct < 256) (h5 : i.beId < 256)
+    (h6 : i.beVer < 2 ^ 32) (h7 : env.libver < 2 ^ 32) (h8 : env.libver ≠ 0) :
+    RefAccept ((specHeader env i idx orig bs p).bytes ++ p) := by
+  have hw := specHeader_WF env i idx orig bs p h1 h2 h3 h4 h5 h6 h7
+  have hp := parseHeader_bytes _ hw p
+  have hmagic : fMagic ((specHeader env i idx orig bs p).bytes ++ p) = magicC := by
+    have := congrArg Header.magic hp; simpa [parseHeader, specHeader] using this
+  have hlib : fLibver ((specHeader env i idx orig bs p).bytes ++ p) = env.libver := by
+    have := congrArg Header.libver hp; simpa [parseHeader, specHeader] using this
+  have hcrc : fMetaCrc ((specHeader env i idx orig bs p).bytes ++ p) =
+      crcWrite env.legacy (specHeader env i idx orig bs p).md.bytes := by
+    have := congrArg Header.metaCrc hp; simpa [parseHeader, specHeader] using this
+  have hm : ((specHeader env i idx orig bs p).bytes ++ p).take 59 = (specHeader env i idx orig bs p).md.bytes := by
+    have hl : (specHeader env i idx orig bs p).md.bytes.length = 59 := meta_bytes_length _ hw.chkLen
+    simp only [Header.bytes, List.append_assoc]
+    rw [List.take_append_of_le_length (by omega), List.take_of_length_le (by omega)]
+  refine ⟨Or.inl hmagic, by rw [hlib]; exact h8, ?_⟩
+  simp only [hmagic, if_true, hcrc, hm]
+  right
+  unfold crcWrite
+  cases env.legacy <;> simp
+
+/-- the CRC table in the C source is the table of the polynomial. -/
+theorem crc_table : LecGen.crc32Tab = crcTable := by decide +kernel
+
+/-- non-vacuity: a concrete fresh header is accepted, and flipping one metadata bit rejects it. -/
+example :
+    let i : Inst := { beId := 6, beVer := 0x010000, k := 2, m := 1, w := 16, ct := 2 }
+    let env : Env := { libver := 0x010604, legacy := false }
+    let f := (specHeader env i 1 5 4 [1, 2, 3, 4]).bytes ++ [1, 2, 3, 4]
+    isInvalidHeader f = false ∧ isInvalidHeader (f.set 0 0) = true := by
+  decide +kernel
+
+#print axioms accept_iff
+#print axioms metadata_gate
+#print axioms decode_gate
+#print axioms reconstruct_gate
+#print axioms reconstruct_host_order
+#print axioms fresh_accepted
+#print axioms crc_table
 end LecProps.C09
